@@ -35,6 +35,7 @@ const (
 	kIface  // interface holding a concrete value
 	kArray  // array value (tup holds the elements)
 	kMap    // map value (m holds the entries; maps are references)
+	kSink   // a recording io.Writer supplied by a rule: Write appends to sink and succeeds
 )
 
 type aval struct {
@@ -52,6 +53,7 @@ type aval struct {
 	fn    *ssa.Function
 	inner *aval
 	m     *amap
+	sink  *[]int64
 }
 
 type cell struct {
@@ -985,6 +987,27 @@ func (in *Interp) doCall(fr *frame, x *ssa.Call, depth int) (res aval, panicked,
 		return aUnknown, false, true
 	}
 	if cc.IsInvoke() {
+		// the recording writer of a rule: Write(p) stores the bytes and returns (len(p), nil)
+		recv := in.get(fr, cc.Value)
+		if recv.k == kIface && recv.inner != nil {
+			recv = *recv.inner
+		}
+		if recv.k == kSink && recv.sink != nil && cc.Method.Name() == "Write" && len(cc.Args) == 1 {
+			arg := in.get(fr, cc.Args[0])
+			var bs []int64
+			okB := true
+			if arg.k == kSlice {
+				bs, okB = sliceBytes(arg)
+			} else if arg.k != kNil {
+				okB = false
+			}
+			if !okB {
+				in.fail("Write of unknown bytes to the recording writer")
+				return aUnknown, false, false
+			}
+			*recv.sink = append(*recv.sink, bs...)
+			return aval{k: kTuple, tup: []aval{aInt(int64(len(bs)), types.Typ[types.Int]), aNil(types.Universe.Lookup("error").Type())}}, false, true
+		}
 		return aUnknown, false, true
 	}
 	callee := cc.StaticCallee()
